@@ -124,7 +124,15 @@ def same_snapshot(a, b):
             return False
         for p, q in zip(x, y):
             for u, v in zip(p, q):
-                if isinstance(u, (str, SymStr)) and isinstance(v, (str, SymStr)):
+                from symlas.symnum import SymNum
+
+                if isinstance(u, SymNum) or isinstance(v, SymNum):
+                    # numbers parsed from symbolic text: equal iff same kind and same source text
+                    if isinstance(u, SymNum) and isinstance(v, SymNum) and u.kind == v.kind:
+                        cs.append(SymStr.lift(u.text).eq_expr(v.text))
+                    else:
+                        return False
+                elif isinstance(u, (str, SymStr)) and isinstance(v, (str, SymStr)):
                     cs.append(SymStr.lift(u).eq_expr(v))
                 elif isinstance(u, (str, SymStr)) or isinstance(v, (str, SymStr)):
                     return False
